@@ -333,6 +333,8 @@ func (s *Sys) CheckSparse(witness []*big.Int, sol *Solution) (*SparseReport, err
 			rep.BadPub = append(rep.BadPub, i)
 		}
 		see(i, sol.L[i])
+		see(0, sol.R[i])
+		see(0, sol.O[i])
 	}
 	for i, g := range s.Gates {
 		l, r, o := sol.L[np+i], sol.R[np+i], sol.O[np+i]
@@ -342,6 +344,12 @@ func (s *Sys) CheckSparse(witness []*big.Int, sol *Solution) (*SparseReport, err
 		if g.Commitment == 0 && g.GateValue(l, r, o, s.Q).Sign() != 0 {
 			rep.BadGates = append(rep.BadGates, i)
 		}
+	}
+	// padding rows carry wire 0 at every position
+	for i := n; i < len(sol.L) && i < len(sol.R) && i < len(sol.O); i++ {
+		see(0, sol.L[i])
+		see(0, sol.R[i])
+		see(0, sol.O[i])
 	}
 	// witness wires that occur in gates must carry the witness values
 	for w := 0; w < len(witness); w++ {
